@@ -2,6 +2,7 @@ package props
 
 import (
 	"fmt"
+	"os"
 
 	"github.com/AdguardTeam/urlfilter/filterlist"
 
@@ -290,6 +291,9 @@ func addProbes(out *Outcome, p *core.Probes) {
 
 func renderTrace(tr []core.Event, max int) []string {
 	var out []string
+	if os.Getenv("VERIF_FULL_TRACE") != "" {
+		max = len(tr)
+	}
 	for i, ev := range tr {
 		if i >= max {
 			out = append(out, fmt.Sprintf("... %d more", len(tr)-max))
